@@ -389,6 +389,7 @@ fn probe_main(spec: &str) -> ! {
         }
         Some("hex") => (hex::decode(w.get(1).copied().unwrap_or("")).unwrap_or_default(), entry_of(w.get(4).copied().unwrap_or("pp"))),
         Some("ops") => (nested_ops(num(2)), Entry::Message),
+        Some("opslit") => (nested_ops_lit(num(2), num(1)), Entry::Message),
         Some("zip") => (nested_compressed(num(2)), Entry::Message),
         Some("sigs") => (repeated(w.get(1).copied().unwrap_or("marker"), num(2)), entry_of(w.get(4).copied().unwrap_or("msg"))),
         _ => std::process::exit(3),
@@ -537,6 +538,20 @@ fn nested_ops(d: usize) -> Vec<u8> {
         v.extend(ops_packet(i + 1 == d));
     }
     v.extend(literal_packet(b"hello"));
+    let sig = new_packet(2, &nest_sig(4, 0));
+    for _ in 0..d {
+        v.extend_from_slice(&sig);
+    }
+    v
+}
+
+/// d one-pass signatures over a literal of `l` octets
+fn nested_ops_lit(d: usize, l: usize) -> Vec<u8> {
+    let mut v = Vec::new();
+    for i in 0..d {
+        v.extend(ops_packet(i + 1 == d));
+    }
+    v.extend(literal_packet(&vec![0x61u8; l]));
     let sig = new_packet(2, &nest_sig(4, 0));
     for _ in 0..d {
         v.extend_from_slice(&sig);
@@ -1201,6 +1216,22 @@ fn sec_repeated(ctx: &mut Ctx, cal: &Calib, out_dir: &str) {
             }
         }
     }
+    // many one-pass signatures over a large literal: every signature packet is a hasher that sees the
+    // whole message
+    let mut ops_series: Vec<(usize, Duration)> = Vec::new();
+    for (d, l) in [(10usize, 1usize << 20), (100, 1 << 20), (1000, 1 << 20), (ctx.pick(4000, 20_000), 1 << 20)] {
+        let r = run_probe(&format!("opslit {l} {d} 0 msg"), out_dir);
+        let site = Entry::Message.site();
+        let input = format!("one-pass signatures n={d} over a literal of {l} octets |input|={}", r.size);
+        ctx.oracle("no_crash", site, &input, r.crashed.is_none(), &r.crashed.clone().unwrap_or_default());
+        if r.crashed.is_none() {
+            let s = Stats { peak: r.peak, total: r.total, count: 0, time: Duration::from_micros(r.time_us as u64), wall: Duration::from_micros(r.time_us as u64), events: vec![] };
+            judge_n(ctx, cal, site, &format!("{input} out={}", r.out), r.size, 2 * d + 1, 0, &s);
+            ctx.note(&format!("opslit n={d} l={l}: out={} |input|={} peak={} time_us={}", r.out, r.size, r.peak, r.time_us));
+            ops_series.push((r.size, Duration::from_micros(r.time_us as u64)));
+        }
+    }
+    judge_scaling(ctx, Entry::Message.site(), "one-pass signatures n=10,100,1000,.. over a literal of 1048576 octets", &ops_series);
     // nested containers: depth sweep (child process, default main-thread stack)
     let depths: Vec<usize> = if ctx.thorough() { vec![1, 10, 100, 1000, 10_000, 100_000] } else { vec![1, 10, 100, 1000, 10_000] };
     // compressed layers are opened one by one by the caller (`Message::decompress`); the sweep stops at 10^4
